@@ -48,11 +48,14 @@ class DSG:
     _taken_single_choices = []
 
     def __init__(self, _graph=None, _influence_matrix=None, _status_array=None, _choice_con_map=None,
-                 _des_var_values=None, _metric_values=None, **_):
+                 _des_var_values=None, _metric_values=None, _infeasible=False, **_):
         self._graph = _graph or self._get_empty_graph()
         self._choice_constraints: List[ChoiceConstraint] = _choice_con_map or []
         self._influence_matrix: Optional[InfluenceMatrix] = _influence_matrix
         self._status_array: Optional[np.ndarray] = _status_array
+
+        # Once a graph is infeasible, all graphs derived from it are infeasible too
+        self._infeasible = _infeasible
 
         self._update_connector_grouping_degrees()
         self._des_var_values: Dict[DesignVariableNode, Union[float, int]] = (_des_var_values or {}).copy()
@@ -540,6 +543,11 @@ class DSG:
 
         graph = self.get_for_adjusted(removed_edges=removed_edges, removed_nodes=removed_nodes,
                                       added_edges=added_edges, status_array=status_array)
+
+        # Unresolvable incompatibilities are marked by incompatibility edges: remember that the graph is infeasible, as
+        # choices applied later might remove the nodes carrying the marker
+        if any(get_edge_type(edge) == EdgeType.INCOMPATIBILITY for edge in added_edges):
+            graph._infeasible = True
         return graph.resolve_single_selection_choices()
 
     def get_taken_single_selection_choices(self) -> List[Tuple[SelectionChoiceNode, Optional[DSGNode]]]:
@@ -616,6 +624,8 @@ class DSG:
     @property
     def feasible(self):
         """Whether the architecture is feasible or not (unconnectable connectors and/or unsolvable incompatibilities)"""
+        if self._infeasible:
+            return False
         try:
             self._check_unconnected_connectors()
         except ValueError:
@@ -685,7 +695,7 @@ class DSG:
         return self.__class__(_graph=graph_copy, _influence_matrix=self._influence_matrix,
                               _status_array=status_array if status_array is not None else self._status_array,
                               _choice_con_map=dec_con_map_copy, _des_var_values=self._des_var_values,
-                              _metric_values=self._metric_values, **kwargs)
+                              _metric_values=self._metric_values, _infeasible=self._infeasible, **kwargs)
 
     def _mod_graph_adjust_kwargs(self, kwargs):
         pass
@@ -700,7 +710,8 @@ class DSG:
         self._mod_graph_adjust_kwargs(kwargs)
         return self.__class__(_graph=graph_copy, _influence_matrix=self._influence_matrix,
                               _status_array=self._status_array, _choice_con_map=self._choice_constraints,
-                              _des_var_values=self._des_var_values, _metric_values=self._metric_values, **kwargs)
+                              _des_var_values=self._des_var_values, _metric_values=self._metric_values,
+                              _infeasible=self._infeasible, **kwargs)
 
     """#########################################
     ### INCOMPATIBILITY CONSTRAINT FUNCTIONS ###
